@@ -28,6 +28,7 @@ func main() {
 		}
 		scs = append(scs, mcx.Scenario{Name: p.Name(), Body: p.Body(), Bound: b, ThoroughBound: tb, SwitchBound: sw, Family: sig, MaxTime: 5 * time.Minute})
 	}
+	scs = append(scs, mcx.Scenario{Name: "cond/two-rounds", Body: scn.TwoRounds(), Bound: 2, ThoroughBound: 3, Family: "cond", MaxTime: 5 * time.Minute})
 	mcx.Main("C16", scs, []string{
 		"a waiter has 'entered Wait' once it has released the caller's lock (observed through the Locker's Unlock)",
 		"violation rule at quiescence: some waiter with a live context is still blocked although fewer Wait calls returned nil than Signal calls were issued (Broadcast: any waiter still blocked)",
